@@ -12,8 +12,9 @@ Definition Y_CLOSE := 101. Definition Y_PING := 102. Definition Y_DRAIN := 103. 
 Definition Y_DROP := 50. Definition Y_CLONE := 51.
 
 Record pthread := mkPT { pt_ops : list pop; pt_mine : N; pt_closing : bool }.
-Inductive lstage := LIdle | LDrain.
-Record lthread := mkLT { lt_ops : list lop; lt_stage : lstage }.
+Inductive lstage := LIdle | LDrain | LCbPing.        (* LCbPing: inside the callback, about to ping its own source *)
+Record lthread := mkLT { lt_ops : list lop; lt_stage : lstage; lt_cbpings : nat; lt_cbhandle : bool }.
+(* lt_cbpings: callbacks that still ping their own source; lt_cbhandle: the callback owns a clone of the handle *)
 
 Inductive cpev := PStep (tid : nat) (yid : N) | PCallback | PRemoved.
 
@@ -77,9 +78,9 @@ Definition lp_step (s : cpst) : cpst :=
       | LDispatch :: r =>
           (* Poll::poll with a zero timeout: level-triggered readable iff the counter is non-zero *)
           if registered s && (0 <? ctr s) then
-            mkCP (ctr s) (handles s) (registered s) (mkLT r LDrain) (thr s) (undrained s) (closemark s) (closes s) (PStep 0 Y_POLL :: tr s)
+            mkCP (ctr s) (handles s) (registered s) (mkLT r LDrain (lt_cbpings l) (lt_cbhandle l)) (thr s) (undrained s) (closemark s) (closes s) (PStep 0 Y_POLL :: tr s)
           else
-            mkCP (ctr s) (handles s) (registered s) (mkLT r LIdle) (thr s) (undrained s) (closemark s) (closes s) (PStep 0 Y_POLL :: tr s)
+            mkCP (ctr s) (handles s) (registered s) (mkLT r LIdle (lt_cbpings l) (lt_cbhandle l)) (thr s) (undrained s) (closemark s) (closes s) (PStep 0 Y_POLL :: tr s)
       end
   | LDrain =>
       let v := ctr s in
@@ -88,7 +89,14 @@ Definition lp_step (s : cpst) : cpst :=
       let t1 := PStep 0 Y_DRAIN :: tr s in
       let t2 := if ping then PCallback :: t1 else t1 in
       let t3 := if close then PRemoved :: t2 else t2 in
-      mkCP 0 (handles s) (if close then false else registered s) (mkLT (lt_ops l) LIdle) (thr s) 0 false (closes s) t3
+      let self_ping := ping && negb close && (match lt_cbpings l with O => false | S _ => true end) in
+      mkCP 0 (handles s) (if close then false else registered s)
+           (if self_ping then mkLT (lt_ops l) LCbPing (pred (lt_cbpings l)) (lt_cbhandle l) else mkLT (lt_ops l) LIdle (lt_cbpings l) (lt_cbhandle l))
+           (thr s) 0 false (closes s) t3
+  | LCbPing =>
+      (* the callback pings its own source (it holds a clone of the handle, counted in `handles`) *)
+      mkCP (ctr s + INCREMENT_PING) (handles s) (registered s) (mkLT (lt_ops l) LIdle (lt_cbpings l) (lt_cbhandle l)) (thr s) (undrained s + 1) (closemark s) (closes s)
+           (PStep 0 Y_PING :: tr s)
   end.
 
 Fixpoint upd_thr (l : list pthread) (i : nat) (t : pthread) : list pthread :=
@@ -109,8 +117,9 @@ Definition cp_step (s : cpst) (k : nat) : cpst :=
            end
   end.
 
-Definition cp_init (progs : list (list pop)) (ndisp : nat) : cpst :=
-  mkCP 0 (N.of_nat (length progs)) true (mkLT (repeat LDispatch ndisp) LIdle)
+Definition cp_init (progs : list (list pop)) (ndisp : nat) (cbp : nat) : cpst :=
+  mkCP 0 (N.of_nat (length progs) + (match cbp with O => 0 | S _ => 1 end)) true
+       (mkLT (repeat LDispatch ndisp) LIdle cbp (match cbp with O => false | S _ => true end))
        (map (fun p => mkPT p 1 false) progs) 0 false 0 [].
-Definition cp_run (progs : list (list pop)) (ndisp : nat) (sched : list nat) : cpst :=
-  fold_left cp_step sched (cp_init progs ndisp).
+Definition cp_run (progs : list (list pop)) (ndisp : nat) (cbp : nat) (sched : list nat) : cpst :=
+  fold_left cp_step sched (cp_init progs ndisp cbp).
